@@ -3883,3 +3883,27 @@ def own10_cache_partitions(P, R, L, rule="OWN-10"):
         R.analysed(op)
         ids = [c for c in op.calls() if not op.is_cleanup(c.bb) and (c.declared_name or c.name or "").endswith("::new_id")]
         R.check(rule, op.path + "|fresh-partition-per-table", bool(ids), where(op), "Table::open allocates a fresh partition id", "new_id sites %d" % len(ids))
+
+
+# ------------------------------------------------------------------------------------------- OWN-11 table cache keyed by the file number
+def own11_table_cache_key(P, R, L, rule="OWN-11"):
+    """TableCache::find_table looks up, opens and caches the table under one and the same file number (its parameter);
+    the table handed back on a miss is the one that was just opened from that file."""
+    fn = "table_cache::TableCache::find_table"
+    b = P.body(fn)
+    if b is None:
+        return R.missing_anchor(rule, fn)
+    R.analysed(b)
+    is_p = lambda op: any(o.kind == "param" and o.name == 2 for o in origins(b, op))
+    gets = [c for c in b.calls() if not b.is_cleanup(c.bb) and (c.declared_name or "").endswith("Cache::get")]
+    ins = [c for c in b.calls() if not b.is_cleanup(c.bb) and (c.declared_name or "").endswith("Cache::insert")]
+    paths = [c for c in b.calls() if not b.is_cleanup(c.bb) and c.name == "file_names::FileNameHandler::get_table_file_path"]
+    opens = [c for c in b.calls() if not b.is_cleanup(c.bb) and c.name == "tables::table::Table::open"]
+    ok = bool(gets) and bool(ins) and bool(paths) and bool(opens) and all(is_p(c.args[1]) for c in gets + ins + paths)
+    # the inserted value is the table opened from that path
+    val_ok = all(any(o.kind == "call" and o.name == "tables::table::Table::open" for o in origins(b, c.args[2])) for c in ins)
+    file_ok = all(any(o.kind == "call" and (o.declared_name if hasattr(o, "declared_name") else o.name or "").endswith("open_file") or
+                      (o.kind == "call" and (o.name or "").endswith("::open_file")) for o in origins(b, c.args[1])) for c in opens)
+    R.check(rule, fn + "|one-key", ok and val_ok and file_ok, where(b),
+            "cache lookup, file path and cache insertion all use the requested file number; the cached value is the table opened from that file",
+            "get %d insert %d path %d open %d; key ok %s, value ok %s, file ok %s" % (len(gets), len(ins), len(paths), len(opens), ok, val_ok, file_ok))
